@@ -441,7 +441,7 @@ func (b *Book) ingestMint(o *HTTPObs) {
 		q.Issued += newVal
 		q.IssueSeqs = append(q.IssueSeqs, o.RetSeq)
 		inv := b.w.LN.Invoices[q.Hash]
-		payments := uint64(q.Internal)
+		payments := uint64(b.internalSettlements(m, q))
 		if inv != nil {
 			payments += uint64(inv.PaidCount)
 		}
@@ -772,4 +772,21 @@ func (b *Book) ingestRestore(o *HTTPObs) {
 			b.Violate("C15.restore_missing", "restore", "restore did not return signature for %s issued via %s", short(out.B_), old.Via)
 		}
 	}
+}
+
+// internalSettlements counts how often a melt request marked this mint quote PAID
+// (settleQuotesInternally), taken from the seam log: the inputs of such a melt are
+// locked or spent from then on, whatever the melt's HTTP response turned out to be.
+func (b *Book) internalSettlements(m *MintBook, q *MQRec) int {
+	n := 0
+	want := "db.UpdateMintQuoteState " + short(q.ID) + " PAID"
+	for _, c := range b.w.SeamLog {
+		if c.Node == m.Name && !c.Err && c.Label == want && (b.w.Net.MeltHandlers[c.Task] || c.Task == "driver") {
+			n++
+		}
+	}
+	if q.Internal > n {
+		n = q.Internal
+	}
+	return n
 }
